@@ -23,6 +23,10 @@ EXPLANATION = (
   " (STATE-alias / STATE-global) no function of the anchored modules mutates a module- or class-level container, rebinds module / class state or mutates a mutable default argument, so a result never depends on earlier calls;"
   ' (CLS-disjoint) no 16-bit word is claimed by two code classes; (FIN-is-code / FIN-channel / FIN-parity / FIN-midrow / FIN-pac-bits / FIN-pac-row) the predicates and bit-field decoders, evaluated on every word of their domain, equal the CEA-608 bit layout oracle;'
   ' (TAB-standard / TAB-special / TAB-extended / TAB-control / TAB-attribute / TAB-midrow / TAB-colors / TAB-rows) the value tables equal the oracle tables; (DSP-disasm / DSP-disasm-colors) the disassembler names every code class and colour;'
+  ' (LINT-l) no tuple / list / set display of the anchored modules lists the same computed component twice and no dict display repeats a key (a key or fingerprint built that way cannot tell apart what the missing component would have);'
+  ' (STATE-share) no assignment stores a container field of one object (a field the package updates in place) into a field of another object without copying it, so an in-place update of one object never changes another;'
+  " (ITEM-source) an object built once per item of an inner loop is filled only with values that derive from that item or do not vary with the loops, never with a value of the enclosing container standing where the item's own belongs;"
+  ' (NUL-known) no local is dereferenced at a point where a dominating test has established that it is None and nothing has assigned it since (the test and the dereference would contradict each other);'
 )
 RULE_TEXT = "per table entry, per helper x domain point (aggregated per helper), per word (aggregated), per structural shape"
 UNDECIDED = ["nothing of substance; the glyph choice for six line-drawing/dash extended characters admits light or heavy Unicode forms",
@@ -591,4 +595,5 @@ def run(ctx):
   check_disassembly(ctx)
   check_disassembly_colors(ctx, tables)
   ctx.extra["finite_domain_evaluations"] = evals + n
+  common.check_known_none(ctx, [n for n in ctx.ix.modules if n.startswith("ttconv.scc")])
   common.check_history_independence(ctx, [n for n in ctx.ix.modules if n.startswith("ttconv.scc")])
